@@ -1,6 +1,7 @@
 import ServiceModel.Properties.C19
 import ServiceModel.Properties.C20
 import ServiceModel.Properties.C17
+import ServiceModel.Properties.C10
 /-!
 # Non-vacuity: the hypotheses of the property theorems are met by concrete, non-trivial reachable states
 
@@ -92,5 +93,34 @@ example : (step s1 (.respond r0 "p" 200 .valid)).2.1 = .ok ∧ (step s2 (.respon
 def s3 : State := runOps s2 [.endblock 5, .endblock 5, .endblock 5, .endblock 5]
 example : Reachable cfg0 p0 1 0 s3 := reachable_of_wfAll _ _ s2_reachable (by decide)
 example : s3.height = 6 ∧ (get s3.ctxs ⟨7, 0⟩).map (·.batch) = some 2 ∧ s3.activeI.length = 2 := by decide
+
+/-- C10, ghosted run: the observer of `Proofs/Cadence.lean` along the same history -/
+def runG (sg : State × Ghost) (ops : List Op) : State × Ghost :=
+  ops.foldl (fun sg o => ((step sg.1 o).1, gstep sg.2 sg.1 o)) sg
+
+theorem greach_of_wfAll {cfg : Config} {p : Params} {h0 t0 : Int} :
+    ∀ (ops : List Op) (s : State) (g : Ghost), GReach cfg p h0 t0 s g → wfAll s ops = true →
+      GReach cfg p h0 t0 (runG (s, g) ops).1 (runG (s, g) ops).2 := by
+  intro ops
+  induction ops with
+  | nil => intro s g hs _; exact hs
+  | cons op t ih =>
+    intro s g hs hw
+    simp only [wfAll, Bool.and_eq_true, decide_eq_true_eq] at hw
+    exact ih _ _ (GReach.step op hs hw.1) hw.2
+
+def sg3 : State × Ghost := runG (genesis cfg0 p0 1 0, Ghost.init) (ops2 ++ [.endblock 5, .endblock 5, .endblock 5, .endblock 5])
+
+/-- two batches have started (heights 1 and 5 = 1 + frequency 4); the context is tracked with its latest start, the
+    flag is down -/
+example : GReach cfg0 p0 1 0 sg3.1 sg3.2 := greach_of_wfAll _ _ _ GReach.init (by decide)
+example : get sg3.2.last ⟨7, 0⟩ = some 5 ∧ sg3.2.bad = false ∧ (get sg3.1.ctxs ⟨7, 0⟩).map (·.batch) = some 2 := by decide
+
+/-- the flag is live: had the previous start been recorded as 2, the start at height 5 (frequency 4) raises it; and a
+    pause drops the record -/
+def sgBefore : State × Ghost := runG (genesis cfg0 p0 1 0, Ghost.init) (ops2 ++ [.endblock 5, .endblock 5, .endblock 5])
+example : sgBefore.1.height = 5 ∧ get sgBefore.2.last ⟨7, 0⟩ = some 1 := by decide
+example : (gstep ⟨[(⟨7, 0⟩, 2)], false⟩ sgBefore.1 (.endblock 5)).bad = true := by decide
+example : get (gstep sgBefore.2 sgBefore.1 (.pause ⟨7, 0⟩ "u")).last ⟨7, 0⟩ = none := by decide
 
 end SM.NonVacuity
